@@ -159,6 +159,8 @@ func c20(c *an.Ctx) {
 			var cl *ssa.Function
 			if mc, ok := d.Call.Value.(*ssa.MakeClosure); ok {
 				cl, _ = mc.Fn.(*ssa.Function)
+			} else if f := d.Call.StaticCallee(); f != nil && f.Blocks != nil && an.RelPkg(f) == clPkg {
+				cl = f // `defer h.reacquire()`: a method instead of a closure
 			}
 			if cl == nil {
 				continue
@@ -399,12 +401,12 @@ func c20(c *an.Ctx) {
 				switch {
 				case n.Obj().Name() == "limiter" && fname == "ch":
 					o.Site(i)
-					if _, ok := allowedCh[name]; !ok || an.RelPkg(fn) != clPkg {
+					if !p.AllowedFunc(fn, func(f *ssa.Function) bool { _, ok := allowedCh[an.QualName(f)]; return ok && an.RelPkg(f) == clPkg }) {
 						o.FailAt(i, "%s.%s touches limiter.ch; token traffic is only allowed in release/block/Acquire", an.RelPkg(fn), name)
 					}
 				case n.Obj().Name() == "holder" && fname == "status":
 					o.Site(i)
-					if _, ok := allowedStatus[name]; !ok || an.RelPkg(fn) != clPkg {
+					if !p.AllowedFunc(fn, func(f *ssa.Function) bool { _, ok := allowedStatus[an.QualName(f)]; return ok && an.RelPkg(f) == clPkg }) {
 						o.FailAt(i, "%s.%s touches holder.status", an.RelPkg(fn), name)
 						return
 					}
